@@ -195,6 +195,9 @@ def run(ctx):
             return lin_coef.copy()
         return np.atleast_2d(fns[name].df(xp))
 
+    # the caller may reuse one array object for its requests, writing each new point into it in place
+    reuse_buffer = t.flag(0.4, "caller_reuses_one_buffer")
+    shared_buf = np.zeros(dim)
     model = {}  # key(tuple of the recorded physical point) -> {name: value}
     requested = set()
     repeated = False
@@ -267,19 +270,25 @@ def run(ctx):
             budget_exhausted = p.evaluation_counter.maximum_is_reached
             exc = None
             val = None
+            if reuse_buffer and t.flag(0.7, "in_buffer"):
+                shared_buf[...] = x_given
+                x_arg = shared_buf
+                ctx.fire("caller_reuses_buffer_in_place")
+            else:
+                x_arg = x_given.copy()
             try:
                 if through_ef:
                     outs, jacs = p.evaluate_functions(
-                        design_vector=x_given.copy(), design_vector_is_normalized=given_norm,
+                        design_vector=x_arg, design_vector_is_normalized=given_norm,
                         output_functions=None if want_jac else [pfun[name]], jacobian_functions=[pfun[name]] if want_jac else None,
                     )
                     val = jacs[name] if want_jac else outs[name]
                     # evaluate_functions returns derivatives w.r.t. the coordinates of the preprocessed functions
                     coord_norm = normalize
                 elif want_jac:
-                    val = pfun[name].jac(x_given.copy())
+                    val = pfun[name].jac(x_arg)
                 else:
-                    val = pfun[name].evaluate(x_given.copy())
+                    val = pfun[name].evaluate(x_arg)
             except (ValueError, FunctionIsNan, MaxIterReachedException) as e:
                 exc = e
             fired = fns[name].fired if name != "lin" else None
